@@ -131,7 +131,7 @@ fn snapshot_and_resume(start: u16, stop: u16) {
 // @props C11
 // @tier thorough
 // @class attempt
-// @timeout 2400
+// @timeout 1200
 // @mem 10
 // @units StaticDatabase::{add, update, select_by_type, push_selection, write, write_range, write_typed_range, reset}, PointMap::select_range_with_variation, SelectionQueue, RangeWriter::{write, try_write, start_header, write_next_value}, is_consecutive, Counter -> Group20Var1
 // @bounds a database with counter points at indices 3, 4 and 9 (fixed), ALL values and flags arbitrary; READ g20v1 over the range [0..=65535] (all three points); after the selection every point is updated again with arbitrary values (must not leak into the response); first response fragment has arbitrary room 0..=40 bytes, the second has room for everything: the two fragments together report every point of the range exactly once, in ascending index order, contiguous indices sharing a header, with value and flags as they were when the READ was processed; a fragment reported complete leaves nothing behind; out of space <=> something is left for the next fragment
@@ -146,7 +146,7 @@ fn c11_snapshot_and_resume_all() {
 // @props C11
 // @tier thorough
 // @class attempt
-// @timeout 2400
+// @timeout 1200
 // @mem 10
 // @units StaticDatabase::{add, update, select_by_type, push_selection, write, write_range, write_typed_range, reset}, PointMap::select_range_with_variation, SelectionQueue, RangeWriter::{write, try_write, start_header, write_next_value}, is_consecutive, Counter -> Group20Var1
 // @bounds a database with counter points at indices 3, 4 and 9 (fixed), ALL values and flags arbitrary; READ g20v1 over the range [4..=9] (the points 4 and 9 (not contiguous)); after the selection every point is updated again with arbitrary values (must not leak into the response); first response fragment has arbitrary room 0..=40 bytes, the second has room for everything: the two fragments together report every point of the range exactly once, in ascending index order, contiguous indices sharing a header, with value and flags as they were when the READ was processed; a fragment reported complete leaves nothing behind; out of space <=> something is left for the next fragment
@@ -161,7 +161,7 @@ fn c11_snapshot_and_resume_two() {
 // @props C11
 // @tier thorough
 // @class attempt
-// @timeout 2400
+// @timeout 1200
 // @mem 10
 // @units StaticDatabase::{add, update, select_by_type, push_selection, write, write_range, write_typed_range, reset}, PointMap::select_range_with_variation, SelectionQueue, RangeWriter::{write, try_write, start_header, write_next_value}, is_consecutive, Counter -> Group20Var1
 // @bounds a database with counter points at indices 3, 4 and 9 (fixed), ALL values and flags arbitrary; READ g20v1 over the range [5..=8] (no point); after the selection every point is updated again with arbitrary values (must not leak into the response); first response fragment has arbitrary room 0..=40 bytes, the second has room for everything: the two fragments together report every point of the range exactly once, in ascending index order, contiguous indices sharing a header, with value and flags as they were when the READ was processed; a fragment reported complete leaves nothing behind; out of space <=> something is left for the next fragment
@@ -176,7 +176,7 @@ fn c11_snapshot_and_resume_none() {
 // @props C11
 // @tier thorough
 // @class attempt
-// @timeout 2400
+// @timeout 1200
 // @mem 12
 // @units StaticDatabase::{add, update, select_by_type, write, write_typed_range}, StaticVariation<BinaryInput>::{promote, get_write_info}, RangeWriter (bit packing + fixed), WireFlags for BinaryInput
 // @bounds binary inputs at indices 3 and 4 configured for the packed variation g1v1, values and flags arbitrary; READ of the whole range; BOTH points are updated with arbitrary new values/flags after the selection; one fragment with enough room: the response is byte-for-byte what the values AT SELECTION TIME imply - packed g1v1 only for plainly ONLINE points, g1v2 (flags with the state in bit 7) otherwise, consecutive points of the same variation share a header - and nothing of the later update leaks (neither value, flags nor the choice of variation)
@@ -288,12 +288,11 @@ fn one_point_case(default_packed: bool, requested: Option<StaticBinaryInputVaria
 // @harness c11_one_point_requested_packed
 // @props C11,C10
 // @tier thorough
-// @class attempt
 // @timeout 3600
-// @mem 16
+// @mem 26
 // @units StaticDatabase::{add, update, select_by_type, write, write_typed_range}, StaticVariation<BinaryInput>::{promote, get_write_info}, RangeWriter, WireFlags for BinaryInput
 // @bounds one binary input (index 3, default variation g1v2), any value and flag octet, READ that explicitly asks for the packed variation g1v1, the point updated with arbitrary new value/flags after the selection: the single-fragment response is byte-for-byte what the value AT SELECTION TIME implies - packed g1v1 only if its flags were exactly ONLINE, otherwise g1v2 with the flags - and nothing of the later update shows (value, flags or choice of variation)
-// @outside more than one point (BTreeMap with several entries: attempt-only harnesses), multi-fragment resumption of this path, the other seven point types
+// @outside more than one point (BTreeMap with several entries: attempt-only harnesses; this one-point harness already needs about 35 GB and 24 minutes, which is why it is thorough-tier), multi-fragment resumption of this path, the other seven point types
 #[kani::proof]
 #[kani::unwind(4)]
 fn c11_one_point_requested_packed() {
@@ -303,9 +302,8 @@ fn c11_one_point_requested_packed() {
 // @harness c11_one_point_default_packed
 // @props C11,C10
 // @tier thorough
-// @class attempt
 // @timeout 3600
-// @mem 16
+// @mem 26
 // @units as c11_one_point_requested_packed
 // @bounds as above with g1v1 as the point's configured default and a READ that names no variation
 #[kani::proof]
